@@ -351,15 +351,22 @@ pub fn run(ctx: &Ctx) -> (Stats, Report) {
     run_replays(P, &mut st, &eval);
     st.section("replays", &mut mark);
     let seed = ctx.seed;
-    let tods: Vec<i64> = if ctx.thorough { vec![0, pools::hms(12, 34, 56, 789_012) as i64, (US_PER_DAY - 1) as i64] } else { vec![pools::hms(12, 34, 56, 789_012) as i64] };
+    // injected times of day: midnight, inside the first second, mid-day with a fraction, the last
+    // microsecond. Thorough: all of them under every date; quick: one per date, rotating with the
+    // date, so that every class meets a fifth of all dates (before and after 1970).
+    let tod_classes: Vec<i64> = vec![pools::hms(12, 34, 56, 789_012) as i64, 0, 500_000, (US_PER_DAY - 1) as i64, 1];
+    let tods: Vec<i64> = if ctx.thorough { tod_classes[..4].to_vec() } else { vec![tod_classes[0]] };
+    let rotate = !ctx.thorough;
 
     // every possible current local date
     let tref = &tods;
+    let tcl = &tod_classes;
     let s = par_sweep(c.len() as u64, 1 << 10, |range, st| {
         for i in range {
             let r = &c.rows[i as usize];
             let special = r.d as u32 == month_len(r.y, r.m as u32) || (r.m == 12 && r.d == 31) || r.y % 100 == 0 || (r.m == 2 && r.d == 29) || r.y < 1000 || r.y == 9999;
             for (ti, &tod) in tref.iter().enumerate() {
+                let tod = if rotate { tcl[(i % tcl.len() as u64) as usize] } else { tod };
                 let clock = Clock { n: r.n, tod };
                 let specs = specs_for(r, i, seed ^ ti as u64, ctx.thorough);
                 for (si, spec) in specs.iter().enumerate() {
@@ -513,7 +520,7 @@ pub fn run(ctx: &Ctx) -> (Stats, Report) {
     let _ = Time::ZERO;
 
     let rep = Report {
-        rule: format!("The injected clock (cargo feature verif-hooks, thread-local) ranges over ALL 3,652,059 possible current local dates x {} time(s) of day. Under each clock: partial pictures \"\", DD (1, 28..31, month length +-), MM, MM-DD, MON DD, YYYY, YYYY-DD, DDD (incl. 365/366), Y / YY / YYY with value classes (all values for Y/YY in thorough) alone and with month/day, HH24:MI, HH:MI AM with empty text, SS, .FF, DD HH:MI PM, an omission grid (12 time-part pictures in several field orders, meridian before or after the 12-hour field, text ending after every token; also swept exhaustively under 7 clocks), rotated over Date / Timestamp / OracleDate; Date::now, Timestamp::now, OracleDate::now, Timestamp::try_from(Time), OracleDate::try_from(Time). Oracle: model defaults (year and month from the clock, day 1, time 0, 12 for an omitted 12-hour field, short years completed with the leading digits of the clock year) validated by the walked calendar (so DD=31 in a 30-day current month, DDD=366 in a common current year, a completed year 0 are errors). Complete pictures (7 shapes x date pool) must give the identical value under 9 different clocks incl. both range ends. Non-trivial = clock at a month end / year end / century-end year / 29 Feb / year < 1000 / year 9999; distinct by enumeration.", tods.len()),
+        rule: format!("The injected clock (cargo feature verif-hooks, thread-local) ranges over ALL 3,652,059 possible current local dates x {} time(s) of day (thorough: midnight, 00:00:00.5, 12:34:56.789012, 23:59:59.999999 under every date; quick: one of those five classes incl. 00:00:00.000001 per date, rotating with the date). Under each clock: partial pictures \"\", DD (1, 28..31, month length +-), MM, MM-DD, MON DD, YYYY, YYYY-DD, DDD (incl. 365/366), Y / YY / YYY with value classes (all values for Y/YY in thorough) alone and with month/day, HH24:MI, HH:MI AM with empty text, SS, .FF, DD HH:MI PM, an omission grid (12 time-part pictures in several field orders, meridian before or after the 12-hour field, text ending after every token; also swept exhaustively under 7 clocks), rotated over Date / Timestamp / OracleDate; Date::now, Timestamp::now, OracleDate::now, Timestamp::try_from(Time), OracleDate::try_from(Time). Oracle: model defaults (year and month from the clock, day 1, time 0, 12 for an omitted 12-hour field, short years completed with the leading digits of the clock year) validated by the walked calendar (so DD=31 in a 30-day current month, DDD=366 in a common current year, a completed year 0 are errors). Complete pictures (7 shapes x date pool) must give the identical value under 9 different clocks incl. both range ends. Non-trivial = clock at a month end / year end / century-end year / 29 Feb / year < 1000 / year 9999; distinct by enumeration.", tods.len()),
         assumptions: vec!["the hook only replaces the value of chrono::Local::now().naive_local() at the six places the library reads it; with the feature off the code is the original".into()],
         exhaustive: true,
         extra: Default::default(),
